@@ -85,6 +85,16 @@ fn main() {
         // daemon, 126 / 127 for a command that cannot be invoked)
         std::process::exit(plan["exit_code"].as_i64().and_then(|c| i32::try_from(c).ok()).unwrap_or(1));
     }
+    // `pack sbom download --output-dir D`: the real CLI creates D (and what is below) if it is not there
+    if prog == "pack" && args.get(1).is_some_and(|a| a == "sbom") {
+        if let Some(i) = args.iter().position(|a| a == "--output-dir") {
+            if let Some(d) = args.get(i + 1) {
+                let dir = Path::new(d).join("layers").join("sbom").join("launch").join("some_id");
+                let _ = std::fs::create_dir_all(&dir);
+                let _ = std::fs::write(dir.join("sbom.syft.json"), b"{}");
+            }
+        }
+    }
     let sub = args.get(1).map(|a| a.to_string_lossy().to_string()).unwrap_or_default();
     match (prog.as_str(), sub.as_str()) {
         ("docker", "port") => println!("127.0.0.1:49153"),
